@@ -49,7 +49,40 @@ class CaseTimeout(BaseException):
 
 
 def _hard_limit(tier):
-    return float(os.environ.get("VF_CASE_HARD_S", "300" if tier == "quick" else "1200"))
+    return float(os.environ.get("VF_CASE_HARD_S", "450" if tier == "quick" else "1200"))
+
+
+class time_limit:
+    """Nest-safe SIGALRM wall-clock limit: raises `exc()` in the main thread after `seconds`; on exit the enclosing
+    limit (handler and remaining time) is put back.  Outside the main thread it does nothing."""
+
+    def __init__(self, seconds, exc):
+        self.sec, self.exc = float(seconds), exc
+
+    def _fire(self, *_):
+        raise self.exc()
+
+    def __enter__(self):
+        import signal
+        import threading
+
+        self.on = threading.current_thread() is threading.main_thread() and self.sec > 0
+        if self.on:
+            self.t0 = time.time()
+            self.prev_left = signal.getitimer(signal.ITIMER_REAL)[0]
+            self.prev = signal.signal(signal.SIGALRM, self._fire)
+            signal.setitimer(signal.ITIMER_REAL, self.sec)
+        return self
+
+    def __exit__(self, et, ev, tb):
+        import signal
+
+        if self.on:
+            signal.setitimer(signal.ITIMER_REAL, 0)
+            signal.signal(signal.SIGALRM, self.prev)
+            if self.prev_left > 0:  # re-arm the enclosing limit with what is left of it (at least a moment)
+                signal.setitimer(signal.ITIMER_REAL, max(0.05, self.prev_left - (time.time() - self.t0)))
+        return False
 
 
 class hard_timeout:
@@ -61,25 +94,13 @@ class hard_timeout:
     def __init__(self, ctx, tier):
         self.ctx, self.sec = ctx, _hard_limit(tier)
 
-    def _fire(self, *_):
-        raise CaseTimeout()
-
     def __enter__(self):
-        import signal
-        import threading
-
-        self.on = threading.current_thread() is threading.main_thread() and self.sec > 0
-        if self.on:
-            self.prev = signal.signal(signal.SIGALRM, self._fire)
-            signal.setitimer(signal.ITIMER_REAL, self.sec)
+        self.tl = time_limit(self.sec, CaseTimeout)
+        self.tl.__enter__()
         return self
 
     def __exit__(self, et, ev, tb):
-        import signal
-
-        if self.on:
-            signal.setitimer(signal.ITIMER_REAL, 0)
-            signal.signal(signal.SIGALRM, self.prev)
+        self.tl.__exit__(et, ev, tb)
         if et is not None and issubclass(et, CaseTimeout):
             self.ctx.skipped_deadline += 1
             self.ctx.event("case_abandoned_at_hard_time_limit")
